@@ -40,8 +40,10 @@ func (c *Chain) Renamed(ct *neotest.Contract, name string) *neotest.Contract {
 	m := new(manifest.Manifest)
 	require.NoError(c.T, json.Unmarshal(raw, m))
 	m.Name = name
-	return &neotest.Contract{Hash: state.CreateContractHash(c.Cmt.ScriptHash(), ct.NEF.Checksum, name),
+	r := &neotest.Contract{Hash: state.CreateContractHash(c.Cmt.ScriptHash(), ct.NEF.Checksum, name),
 		NEF: ct.NEF, Manifest: m, DebugInfo: ct.DebugInfo}
+	coverTrack(ct.Manifest.Name, r)
+	return r
 }
 
 // CompileFor compiles contracts/<name> and returns a descriptor whose Hash is the one the contract gets
